@@ -33,7 +33,8 @@ from props import c20 as c20suite
 
 RULE = ('histories of traced stage runs in shared input/output/scratch '
         'directories: stages precompute / reference markers / validate / '
-        'mapping; before each run stale files and directories are planted '
+        'mapping / election (own entry point, shared results directory, '
+        'success after a failure with other chunk boundaries); before each run stale files and directories are planted '
         'under every temporary-name pattern of the code base in the scratch '
         'and output directories; mapping histories = success after success, '
         'success after each invalid-input failure (negative raw, markers '
@@ -262,6 +263,58 @@ def validate_job(rng, area, tag, encoding='csr'):
             'encoding': encoding, 'expect_ok': True}
 
 
+def election_inputs(rng, area, tag, encoding='dense', n_cells=None):
+    """query (+ a second query with the same cell ids and other values),
+    stats and the marker cache of one election problem"""
+    from cell_type_mapper.type_assignment.marker_cache_v2 import (
+        create_marker_cache_from_specified_markers)
+    from cell_type_mapper.taxonomy.taxonomy_tree import TaxonomyTree
+    sub = area.inp / tag
+    sub.mkdir()
+    mp = pipeline.MappingProblem(rng, max_depth=3,
+                                 n_cells=n_cells or rng.randint(9, 14),
+                                 n_genes=12)
+    stats, query, _ = mp.write(sub, encoding=encoding)
+    other = sub / 'query_other.h5ad'
+    pipeline.write_h5ad(other, np.roll(mp.X, 3, axis=0)[:, ::-1] + 1.0,
+                        mp.cell_ids, mp.query_genes, encoding=encoding)
+    cache = sub / 'marker_cache.h5'
+    with pipeline.quiet():
+        create_marker_cache_from_specified_markers(
+            marker_lookup=mp.markers, reference_gene_names=mp.ref_genes,
+            query_gene_names=mp.query_genes, output_cache_path=cache,
+            log=None, taxonomy_tree=TaxonomyTree(data=mp.tree),
+            min_markers=1)
+    return {'query': str(query), 'other': str(other), 'stats': str(stats),
+            'cache': str(cache), 'n_cells': len(mp.cell_ids),
+            'encoding': encoding}
+
+
+def election_job(rng, area, inp, tag, which='query', chunk_size=None,
+                 n_processors=None, fault=None):
+    """`run_type_assignment_on_h5ad(..., results_output_path=<the shared
+    scratch directory>)`; the returned list is stored by the runner in the
+    unwatched job directory"""
+    result_path = area.job / (tag + '_election.json')
+    job = {'stage': 'election', 'query_path': inp[which],
+           'precomputed_path': inp['stats'],
+           'marker_cache_path': inp['cache'],
+           'n_processors': n_processors or rng.choice([2, 3]),
+           'chunk_size': chunk_size or rng.choice([2, 3, 4, 5]),
+           'bootstrap_factor': 0.6, 'bootstrap_iteration': 7,
+           'rng_seed': 2718, 'tmp_dir': str(area.tmp),
+           'results_output_path': str(area.tmp),
+           'result_path': str(result_path)}
+    if fault is not None:
+        job['fault'] = fault
+    return {'stage': 'election', 'job': job,
+            'inputs': [inp[which], inp['stats'], inp['cache']],
+            'outputs': [], 'scratch': [str(area.tmp), str(area.systmp)],
+            'failure': 'success' if fault is None else
+            'worker_%s_%s' % (fault['mode'], fault['point']),
+            'encoding': inp['encoding'], 'expect_ok': fault is None}
+
+
 # ---------------------------------------------------------------------------
 # results, canonicalised
 # ---------------------------------------------------------------------------
@@ -297,6 +350,16 @@ def result_of(spec):
     """canonical result of a finished run (None where nothing was written)"""
     st = spec['stage']
     res = {}
+    if st == 'election':
+        p = pathlib.Path(spec['job']['result_path'])
+        if p.is_file():
+            try:
+                res['assignments'] = sorted(
+                    json.loads(p.read_text()),
+                    key=lambda c: json.dumps(c, sort_keys=True))
+            except Exception as e:
+                res['json_error'] = repr(e)
+        return res
     if st == 'mapping':
         cfg = spec['job']['config']
         p = pathlib.Path(cfg['extended_result_path'])
@@ -726,6 +789,68 @@ def history_stages(ctx, rng, encoding='csr', twice=False):
                                   {'kind': 'history', 'history': hist})
 
 
+def history_election(ctx, rng, encoding='dense', pair=False):
+    """the election stage through its own entry point with a results
+    directory shared by the whole history: stale chunk files planted, a run
+    that fails after some workers wrote their chunks (same cell ids, other
+    values, other chunk boundaries), then the run under test -- its result
+    must equal the run in a pristine directory and the directory must be as
+    before once it has returned.  (A failed direct call may leave its
+    results_buffer_* behind: clean-up on error is promised for a mapping run
+    only.)"""
+    hist = 'stale+election-failure+election' + ('-pair' if pair else '')
+    with pipeline.workdir('ctmverif_c19_') as wd:
+        area = Area(wd)
+        plant_stale(rng, area.tmp, k=8)
+        # stale chunk records under the names a shared buffer would use
+        # (only in some histories: otherwise a shared buffer would trip over
+        # these before it could silently mix in the chunk files of the
+        # failed run below)
+        junk = ('results_buffer', 'results_buffer_stale1') \
+            if rng.random() < 0.4 else ('results_buffer_stale1',)
+        for d in junk:
+            (area.tmp / d).mkdir(exist_ok=True)
+            (area.tmp / d / '0_900_assignment.json').write_text(
+                '[{"cell_id": "stale"}]')
+        state = rng.getstate()
+
+        def build_inp(r, a):
+            return election_inputs(r, a, 'e', encoding)
+        inp = build_inp(rng, area)
+        n = inp['n_cells']
+        # failing run: same cell ids, other values, other chunking; a late
+        # chunk's worker is killed after the others wrote their files
+        cs_bad = rng.choice([2, 3])
+        r0_bad = cs_bad * ((n - 1) // cs_bad)
+        bad = election_job(rng, area, inp, 'bad', which='other',
+                           chunk_size=cs_bad, n_processors=2,
+                           fault={'mode': rng.choice(['kill', 'raise']),
+                                  'point': 'before', 'r0': r0_bad})
+        run_specs(ctx, area, [bad], hist + ':failing', traced=False)
+        cs_good = rng.choice([c for c in (4, 5, 7) if c != cs_bad])
+        nproc = rng.choice([2, 3])
+        state2 = rng.getstate()
+
+        def build(r, a, tag='good'):
+            i = build_inp(r, a) if a is not area else inp
+            return election_job(r, a, i, tag, chunk_size=cs_good,
+                                n_processors=nproc)
+
+        def build_solo(r, a):
+            r.setstate(state)
+            i = build_inp(r, a)
+            return election_job(r, a, i, 'good', chunk_size=cs_good,
+                                n_processors=nproc)
+        specs = [build(rng, area)]
+        if pair:
+            specs.append(election_job(rng, area, inp, 'good2',
+                                      which='other', chunk_size=cs_bad,
+                                      n_processors=nproc))
+        got = run_specs(ctx, area, specs, hist + ':success')
+        solo = solo_result(ctx, state2, build_solo, 'election')
+        compare_with_solo(ctx, specs[0], hist, got[0], solo)
+
+
 def history_pair(ctx, rng, n=2):
     """concurrent mapping runs sharing scratch and output directories"""
     hist = 'stale+concurrent-pair'
@@ -785,6 +910,7 @@ def run(ctx):
                         then_success=False)
         history_stages(ctx, rng, rng.choice(['csr', 'dense']))
         history_pair(ctx, rng)
+        history_election(ctx, rng, rng.choice(['dense', 'csr']))
     else:
         for i, f in enumerate(MAPPING_FAILURES):
             history_mapping(ctx, rng, f,
@@ -799,6 +925,9 @@ def run(ctx):
             history_stages(ctx, rng, enc, twice=(enc == 'csr'))
         for i in range(10):
             history_pair(ctx, rng, n=2 if i < 8 else 3)
+        for i, enc in enumerate(['dense', 'csr', 'csc', 'dense', 'csr',
+                                 'dense']):
+            history_election(ctx, rng, enc, pair=i >= 3)
     if bad:
         # the clean-up obligation fails on the regenerated skeleton: the
         # histories above are the failing-input search
@@ -824,7 +953,12 @@ def replay(ctx, data, from_corpus=False):
         spec = d.get('spec') or (d.get('specs') or [{}])[0]
         stage = spec.get('stage', 'mapping')
         hist = d.get('history', '')
-        if 'concurrent' in hist:
+        if 'election' in hist:
+            history_election(ctx, rng, spec.get('encoding', 'dense')
+                             if spec.get('encoding') in ('dense', 'csr',
+                                                         'csc')
+                             else 'dense', pair='-pair' in hist)
+        elif 'concurrent' in hist:
             history_pair(ctx, rng)
         elif stage == 'mapping':
             failure = spec.get('failure')
